@@ -63,8 +63,9 @@ VARIABLES
   cacheVals,  \* cacheVals[t] = value a fresh load of t gives after the call, <<>> if none/unloadable
   obsCache,   \* TRUE once the post-call cache observation has been made
   envok,      \* set of <<t, fact>> process-environment facts observed in run() that contradict the backend's promise
-  marks,      \* post-call observation: set of [t, marked, anc] -- an instance of task t reachable from the
-              \* requested instances through the chain of tasks anc; marked iff its result_meta is set
+  marks,      \* post-call observation: set of [t, marked, anc, tok] -- an instance of task t reachable from the
+              \* requested instances through the chain of tasks anc; marked iff its result_meta is set; tok = a token
+              \* of the outcome it is marked with (start and duration)
   emitted,    \* sequence of message tokens emitted by tasks (logger records, stdout / stderr lines)
   emitBy,     \* emitBy[i] = the task that emitted emitted[i]
   delivered,  \* sequence of message tokens that reached the caller's labtech logger handlers
@@ -173,6 +174,10 @@ C03_OutcomeStable_Step ==
 
 C03_Marked ==
     \A m \in marks : (done[m.t] = "ok" /\ \A a \in Range(m.anc) : runCount[a] > 0) => m.marked
+(* ... with the outcome of its own task: instances of one task carry one outcome, instances of different tasks different ones *)
+Processed(m) == done[m.t] = "ok" /\ m.marked /\ \A a \in Range(m.anc) : runCount[a] > 0
+C03_MarkedOwn ==
+    \A m1, m2 \in marks : (Processed(m1) /\ Processed(m2)) => ((m1.t = m2.t) <=> (m1.tok = m2.tok))
 
 (* C04  per-type and global concurrency limits are never exceeded *)
 
